@@ -275,9 +275,16 @@ class Project:
         raise AnchorError(f"module {rel_or_name} not found in working tree")
 
     def cls(self, name: str, module: str | None = None) -> ClassInfo:
-        cands = self.classes.get(name, [])
+        allc = self.classes.get(name, [])
+        cands = allc
         if module:
             cands = [c for c in cands if c.module.rel == module or c.module.name == module]
+            if not cands and len(allc) == 1:
+                # the class moved to another module of the package (and is re-exported from where it used to live): the
+                # anchor is the class, not the file it happens to be written in
+                m_ = self.modules.get(module) or next((m for m in self.modules.values() if m.rel == module or m.name == module), None)
+                if m_ is None or name in getattr(m_, "imports", {}):
+                    cands = allc
         if len(cands) != 1:
             raise AnchorError(f"class {name}" + (f" in {module}" if module else "") + f": {len(cands)} definitions found")
         return cands[0]
@@ -322,9 +329,12 @@ class Project:
         return out
 
     def func(self, name: str, module: str | None = None) -> FuncInfo:
-        cands = self.functions.get(name, [])
+        allf = self.functions.get(name, [])
+        cands = allf
         if module:
             cands = [c for c in cands if c.module.rel == module or c.module.name == module]
+            if not cands and len(allf) == 1:
+                cands = allf            # moved to another module of the package
         if len(cands) != 1:
             raise AnchorError(f"function {name}: {len(cands)} definitions found")
         return cands[0]
